@@ -22,7 +22,7 @@ import (
 func init() {
 	core.Register(&core.Property{
 		ID:   "C16",
-		Rule: "the real joinserver http.Handler is driven through httptest recorders with seeded worlds (device population with random root keys / EUIs / JoinNonce incl. 0 and 2^24-1, NS and AS key-encryption keys of 16/24/32 bytes present or absent independently) and requests: join-request and rejoin-request types 0/1/2 with correct and wrong MIC, known and unknown DevEUI, OptNeg both ways, RxDelay 0..15, CFList absent/present, HomeNSReq, and malformed bodies (truncated JSON, wrong MessageType, bad hex, PHYPayload of another MType, JoinNonce >= 2^24). Every Success answer is handed to an independent spec end-device (harness/spec/device.go) that decrypts the join-accept, verifies its MIC, compares the echoed fields and derives the session keys, which must equal the answer's key envelopes after unwrapping with the harness' RFC 3394 code; result codes and id mirroring are checked for the failure answers. The -race pass sends interleaved requests from many goroutines through one handler and judges each answer against its own request. Distinct = (request kind, OptNeg, KEK configuration, CFList, outcome).",
+		Rule: "the real joinserver http.Handler is driven through httptest recorders with seeded worlds (device population with random root keys / EUIs / JoinNonce incl. 0 and 2^24-1, NS and AS key-encryption keys of 16/24/32 bytes present or absent independently) and requests: join-request and rejoin-request types 0/1/2 with correct and wrong MIC, known and unknown DevEUI, OptNeg both ways, RxDelay 0..15, CFList absent/present (random octets, all sixteen octets zero, unused frequency slots or empty masks at random positions), HomeNSReq, and malformed bodies (truncated JSON, wrong MessageType, bad hex, PHYPayload of another MType, JoinNonce >= 2^24). Every Success answer is handed to an independent spec end-device (harness/spec/device.go) that decrypts the join-accept, verifies its MIC, compares the echoed fields and derives the session keys, which must equal the answer's key envelopes after unwrapping with the harness' RFC 3394 code; result codes and id mirroring are checked for the failure answers. The -race pass sends interleaved requests from many goroutines through one handler and judges each answer against its own request. Distinct = (request kind, OptNeg, KEK configuration, CFList, outcome).",
 		Assumptions: []string{
 			"session keys: 1.0 NwkSKey/AppSKey from typ|JoinNonce|NetID|DevNonce; 1.1 FNwkSIntKey/SNwkSIntKey/NwkSEncKey from NwkKey and AppSKey from AppKey over typ|JoinNonce|JoinEUI|DevNonce (RJcount for rejoins); JSIntKey/JSEncKey from NwkKey over 0x06/0x05|DevEUI",
 			"for a LoRaWAN 1.0 device the single root key is configured as NwkKey (the package follows the 1.1 key naming)",
@@ -183,6 +183,26 @@ func c16MakeRequest(r *core.RNG, w *c16World, forceValid bool) c16Req {
 		if q.cfList[15] == 1 {
 			// channel-mask CFList: at most 6 masks, the remaining octets are RFU (sent as 0)
 			q.cfList[12], q.cfList[13], q.cfList[14] = 0, 0, 0
+		}
+		// structured lists (a requested CFList is echoed whatever it holds): unused (all-zero)
+		// frequency slots or masks at the front, in the middle, everywhere
+		switch r.Intn(6) {
+		case 0:
+			for i := 0; i < 15; i++ {
+				q.cfList[i] = 0
+			}
+		case 1:
+			n := 3
+			if q.cfList[15] == 1 {
+				n = 2
+			}
+			for k := 0; k < 15/n; k++ {
+				if r.Bool() {
+					for i := 0; i < n; i++ {
+						q.cfList[k*n+i] = 0
+					}
+				}
+			}
 		}
 	}
 	kinds := []string{"join", "join", "join", "rejoin0", "rejoin1", "rejoin2", "homens"}
